@@ -2,6 +2,7 @@ package checks
 
 import (
 	"fmt"
+	"math"
 	"math/big"
 	"sort"
 	"strings"
@@ -313,6 +314,48 @@ func runC01(c *core.Ctx) {
 	})
 
 	c.RunPart("l3-random", 20*time.Minute, func(c *core.Ctx) {
+		// amounts at the edges of the number type: the sum over paths of the products is finite although a sum of
+		// coefficients alone (or a product taken in another grouping) would not be - 2^1023 twice times 2^-1000,
+		// and the mirror case with tiny coefficients
+		for entry := 0; entry < 4; entry++ {
+			for ci, cs := range []struct {
+				outer, inner float64
+				rows         int
+				want         float64
+			}{{math.Ldexp(1, 1023), math.Ldexp(1, -1000), 2, math.Ldexp(1, 24)}, {-math.Ldexp(1, 1023), math.Ldexp(1, -1000), 2, -math.Ldexp(1, 24)}, {math.Ldexp(1, 1022), math.Ldexp(1, -1022), 4, 4}, {math.Ldexp(1, -1000), math.Ldexp(1, 1000), 3, 3}} {
+				mk := func() shared.DBNodeMap {
+					db := shared.NewDBNodeMap()
+					mix := shared.NewParserNode("mix")
+					if entry >= 2 {
+						// all rows in one table, as in buildDBShared
+						tbl := make(shared.Elements, 0, cs.rows+1)
+						for k := 0; k < cs.rows; k++ {
+							tbl = append(tbl, shared.NewElement("concentrate", cs.outer))
+						}
+						mix.Elements = tbl
+					} else {
+						for k := 0; k < cs.rows; k++ {
+							mix.Elements.Add("concentrate", cs.outer)
+						}
+					}
+					conc := shared.NewParserNode("concentrate")
+					conc.Elements.Add("x", cs.inner)
+					db.Push(shared.NewDBNodeFromNode(mix))
+					db.Push(shared.NewDBNodeFromNode(conc))
+					return db
+				}
+				db := mk()
+				err := resolveVia(entry, db, 10)
+				c.Eval(1)
+				c.Count("edge_of_number_type_cases", 1)
+				c.Nontrivial("edge-numbers", fmt.Sprint(entry, ci))
+				got := db["mix"].Elements
+				if err != nil || len(got) != 1 || got[0].Name != "x" || got[0].Value != cs.want {
+					c.Violation(fmt.Sprintf("resolve entry%d|value", entry), fmt.Sprintf("mix = %d rows of concentrate x %g, concentrate = x %g: resolved to %v (error %v), want x = %g", cs.rows, cs.outer, cs.inner, got, err, cs.want),
+						map[string]any{"rows": cs.rows, "outer_coefficient": fmt.Sprint(cs.outer), "inner_coefficient": fmt.Sprint(cs.inner), "want": fmt.Sprint(cs.want), "got": fmt.Sprint(got), "entry_point": entry})
+				}
+			}
+		}
 		n := c.N(2000, 40000)
 		core.ParallelFor(n, c.Procs, func(w, i int) {
 			r := c.Rng("random", i)
